@@ -12,6 +12,9 @@ the statement is left as written.
 * ``for c, x in enumerate(Y, start=K)`` (K a non-zero int constant, c not assigned in the body)  ->
   ``c = K - 1`` / ``for x in Y: c += 1; ...`` - the running count of the elements seen so far.  (After a loop over an empty
   Y the counter is K - 1 here and unbound in the source: the two differ only where the source raises NameError.)
+* ``xs = [E for v in IT if C]`` where E calls the iterated element (one generator, no nested comprehension / lambda, xs
+  not read by it)  ->
+  ``xs = []`` / ``for v in IT: if C: xs.append(E)``; v is renamed apart when the function uses that name elsewhere.
 """
 from __future__ import annotations
 
@@ -132,7 +135,60 @@ def _rewrite_stmt(fn, s: ast.stmt) -> List[ast.stmt]:
             loop = ast.copy_location(ast.For(target=s.target.elts[1], iter=s.iter.args[0], body=[inc] + list(s.body),
                                              orelse=s.orelse, type_comment=None), s)
             return [init, loop]
+    # xs = [E for v in IT if C]
+    if COMPREHENSIONS_AS_LOOPS and isinstance(s, ast.Assign) and len(s.targets) == 1 and isinstance(s.targets[0], ast.Name) \
+            and isinstance(s.value, ast.ListComp) and len(s.value.generators) == 1 and not s.value.generators[0].is_async:
+        g = s.value.generators[0]
+        xs = s.targets[0].id
+        inner = [n for n in ast.walk(s.value) if isinstance(n, (ast.ListComp, ast.SetComp, ast.DictComp, ast.GeneratorExp,
+                                                               ast.Lambda, ast.NamedExpr)) and n is not s.value]
+        bound = {n.id for n in ast.walk(g.target) if isinstance(n, ast.Name)}
+
+        def _root(e):
+            while isinstance(e, (ast.Attribute, ast.Subscript)):
+                e = e.value
+            return e.id if isinstance(e, ast.Name) else None
+        # only dispatch comprehensions - the iterated elements are themselves called (loaders, collators, transforms): there
+        # the order and the once-per-element discipline are what the path rules look at; comprehensions that merely build a
+        # value stay values
+        dispatch = any(isinstance(c, ast.Call) and _root(c.func) in bound for c in ast.walk(s.value.elt))
+        if dispatch and not inner and xs not in _names(s.value):
+            fn_names = {n.id for n in ast.walk(fn) if isinstance(n, ast.Name)} | {a.arg for a in ast.walk(fn)
+                                                                                   if isinstance(a, ast.arg)}
+            outside = set()
+            for n in ast.walk(fn):
+                if isinstance(n, ast.Name) and n.id in bound and not any(n is m for m in ast.walk(s.value)):
+                    outside.add(n.id)
+            ren = {b: b for b in bound}
+            for b in outside:
+                k = 1
+                while f"{b}__c{k}" in fn_names:
+                    k += 1
+                ren[b] = f"{b}__c{k}"
+
+            class RN(ast.NodeTransformer):
+                def visit_Name(self, node):
+                    if node.id in ren and ren[node.id] != node.id:
+                        return ast.copy_location(ast.Name(id=ren[node.id], ctx=node.ctx), node)
+                    return node
+            rn = RN()
+            tgt = rn.visit(copy.deepcopy(g.target))
+            elt = rn.visit(copy.deepcopy(s.value.elt))
+            ifs = [rn.visit(copy.deepcopy(c)) for c in g.ifs]
+            app = ast.Expr(value=ast.Call(func=ast.Attribute(value=ast.Name(id=xs, ctx=ast.Load()), attr="append",
+                                                             ctx=ast.Load()), args=[elt], keywords=[]))
+            body: List[ast.stmt] = [ast.copy_location(app, s)]
+            if ifs:
+                test = ifs[0] if len(ifs) == 1 else ast.BoolOp(op=ast.And(), values=ifs)
+                body = [ast.copy_location(ast.If(test=test, body=body, orelse=[]), s)]
+            init = ast.copy_location(ast.Assign(targets=[ast.Name(id=xs, ctx=ast.Store())],
+                                                value=ast.List(elts=[], ctx=ast.Load())), s)
+            loop = ast.copy_location(ast.For(target=tgt, iter=g.iter, body=body, orelse=[], type_comment=None), s)
+            return [init, loop]
     return [s]
+
+
+COMPREHENSIONS_AS_LOOPS = True
 
 
 def _block(fn, stmts: List[ast.stmt]) -> List[ast.stmt]:
